@@ -255,6 +255,11 @@ func ruleISRPersisted(c *eng.Ctx) {
 				if b, ok := x.Call.Value.(*ssa.Builtin); ok && b.Name() == "delete" && eng.Load(isrF, nil)(x.Call.Args[0]) {
 					muts = append(muts, in)
 				}
+				// the keys taken with the standard library instead of a hand-written range (maps.Keys feeding
+				// slices.AppendSeq / Collect / Sorted)
+				if ref := eng.CalleeRef(&x.Call); (ref == "maps.Keys" || ref == "maps.All") && len(x.Call.Args) == 1 && eng.Load(isrF, nil)(x.Call.Args[0]) {
+					ranges = append(ranges, in)
+				}
 			}
 		})
 		ok := len(ranges) == 1 && len(muts) == 1
